@@ -45,6 +45,7 @@ def shards(tier, seed):
     out.append(("child_struct_sig", dict(kind="struct", cname="BRAINPOOLP160r1", grp="sig", _pyopt="hashseed")))
     for i in range(2 if q else 8):
         out.append(("concurrent_loaders_%d" % i, dict(kind="concurrent", runs=120 if q else 1500)))
+        out.append(("first_use_loaders_%d" % i, dict(kind="first_use", runs=40 if q else 400)))
     if not q:
         for nm in ("NIST192p", "SECP112r1"):
             for part in range(8):
@@ -338,6 +339,34 @@ def _run(ctx, rng, kind, **kw):
                     ctx.count("watchdog_inconclusive")
         finally:
             hooks.uninstall()
+    elif kind == "first_use":
+        # the same, but every run starts on a fresh private instance of the package: the first key ever decoded by it is decoded by
+        # 2-3 threads at once (lookup tables built on first use)
+        from vf import sched as S
+        names = [c.name for c in lib.ALL_CURVES if c.order.bit_length() <= 256]
+        spec = []
+        for nm in names:
+            c = lib.BY_NAME[nm]
+            sk = ecdsa.SigningKey.from_secret_exponent(rng.randrange(1, c.order), c)
+            spec += [("vk.from_der", ("VerifyingKey", "from_der"), bytes(sk.verifying_key.to_der()), bytes(sk.verifying_key.to_string())),
+                     ("sk.from_der", ("SigningKey", "from_der"), bytes(sk.to_der()), bytes(sk.to_string())),
+                     ("sk.from_der", ("SigningKey", "from_der"), bytes(sk.to_der(format="pkcs8")), bytes(sk.to_string())),
+                     ("vk.from_pem", ("VerifyingKey", "from_pem"), bytes(sk.verifying_key.to_pem()), bytes(sk.verifying_key.to_string()))]
+
+        def mk(M):
+            out = []
+            for lab, (cls_, meth), blob, want in spec:
+                f = getattr(getattr(M, cls_), meth)
+                out.append((lab, (lambda f=f, blob=blob: bytes(f(blob).to_string())), (), want))
+            return out
+
+        def codes(M):
+            return ([c_ for c_ in S.codes_of(M.curves) if c_.co_name.startswith(("find_curve", "_"))] + S.codes_of(M.keys.VerifyingKey, {"from_der", "from_pem", "from_string"})
+                    + S.codes_of(M.keys.SigningKey, {"from_der", "from_pem"}) + S.codes_of(M.der, {"unpem", "remove_object", "remove_sequence"}))
+        S.first_use_purity(ctx, codes, mk, rng, kw["runs"], cls="first_use_loaders")
+        # and systematically: every single-preemption schedule over the yield points of the functions that keep module-level state
+        S.first_use_systematic(ctx, lambda M: S.stateful_codes(M.curves, M.keys, M.der, M.util, M.ecdsa, M.ellipticcurve, M.numbertheory, M._compat), mk, rng, max(3, kw["runs"] // 10),
+                               cls="first_use_loaders_systematic")
     elif kind == "pem":
         curve = lib.BY_NAME["NIST256p"]
         sk, vk, msg, digest, M = material(curve, rng)
